@@ -436,6 +436,7 @@ class Exec(object):
         op = tuple(op)
         try:
             r = ('ok', self.cv(getattr(self, 'op_' + op[0])(*op[1:])))
+            self._model_update(op, r)
         except Skip:
             self.skipped = True
             r = ('skip', None)
@@ -446,13 +447,77 @@ class Exec(object):
         self.obs.append(r)
         if self.dumps: self.dumps.append(self.env.dump())
         return r
+    # ---- boring reference model of what the program did (facts that later reads must confirm) -------
+    def _model_update(self, op, r):
+        """facts: (label, attr) -> ('val', v) for scalars / references, ('is', items) | ('has', item) |
+        ('hasnot', item) for collections. A fact is dropped as soon as any later operation could
+        legitimately change it (same attribute, or any operation on the same relationship from either
+        side, deletion, rollback), so a surviving fact is unconditional."""
+        F = self.__dict__.setdefault('facts', {})
+        k = op[0]
+        if k in ('rollback', 'raise'): F.clear(); return
+        if k in ('bulkdel', 'qdel'): F.clear(); return
+        def rel_names(label, attr):
+            e = self.env.E.get(label.split(':')[0])
+            a = None
+            for cls in [e] + list(e._subclasses_):
+                a = a or cls._adict_.get(attr)
+            names = {attr}
+            if a is not None and a.reverse: names.add(a.reverse.name)
+            return names, a
+        def invalidate_relationship(names):
+            for key in [key for key in F if key[1] in names]: del F[key]
+        if k == 'delete':
+            lbl = op[1]
+            for key in [key for key in F if key[0] == lbl or (F[key][0] == 'val' and F[key][1] == lbl)]: del F[key]
+            for key in [key for key in F if F[key][0] in ('is', 'has', 'hasnot')]: del F[key]
+            for key in [key for key in F if isinstance(F[key][1], str) and ':' in str(F[key][1])]: del F[key]   # cascades may touch any reference
+            return
+        if k == 'create':
+            lbl = r[1]
+            for key in [key for key in F if key[0] == lbl]: del F[key]
+            for an, v in op[3].items():
+                names, a = rel_names(lbl, an)
+                if a is not None and a.reverse: invalidate_relationship(names)
+                F[(lbl, an)] = ('val', v[1] if isinstance(v, (tuple, list)) else v)
+            return
+        if k in ('set', 'setm'):
+            pairs = [(op[2], op[3])] if k == 'set' else list(op[2])
+            for an, v in pairs:
+                names, a = rel_names(op[1], an)
+                if a is not None and a.reverse: invalidate_relationship(names)
+                F[(op[1], an)] = ('val', v[1] if isinstance(v, (tuple, list)) else v)
+            return
+        if k in ('add', 'remove', 'clear', 'assign'):
+            names, a = rel_names(op[1], op[2])
+            invalidate_relationship(names)
+            if k == 'add': F[(op[1], op[2])] = ('has', op[3])
+            elif k == 'remove': F[(op[1], op[2])] = ('hasnot', op[3])
+            elif k == 'clear': F[(op[1], op[2])] = ('is', [])
+            else: F[(op[1], op[2])] = ('is', sorted(op[3]))
+    def facts_violated(self, view):
+        """facts contradicted by a public view {label: {attr: value}}"""
+        bad = []
+        for (lbl, an), (kind, v) in sorted(self.__dict__.get('facts', {}).items()):
+            vals = view.get(lbl)
+            if vals is None: bad.append('%s.%s:object-missing' % (lbl.split(':')[0], an)); continue
+            if an not in vals: continue
+            got = vals[an]
+            ok = (got == v) if kind == 'val' else (got == v) if kind == 'is' else (v in got) if kind == 'has' else (v not in got)
+            if not ok: bad.append('%s.%s:%s' % (lbl.split(':')[0], an, {'val': 'assigned-value-lost', 'is': 'assigned-collection-differs', 'has': 'added-item-missing', 'hasnot': 'removed-item-present'}[kind]))
+        return sorted(set(bad))
+
     def _after_exception(self):
+        if self.__dict__.get('facts') and (getattr(self, 'last_exc', None) is not None):
+            pass
+
         # a failing flush/commit inside the session rolls the cache back: objects of it are dead
         from pony.orm import core as pcore
         cache = pcore.local.db2cache.get(self.env.db)
         self.died = cache is None or not cache.is_alive
         if self.died:
             self.refs = {}
+            self.__dict__.setdefault('facts', {}).clear()
         else:
             for l, o in list(self.refs.items()):
                 if o._session_cache_ is not cache: del self.refs[l]
